@@ -8,3 +8,21 @@ def from_jv(j):
     if t == "a": return [from_jv(x) for x in j["v"]]
     if t == "o": return {k: from_jv(v) for k, v in zip(j["k"], j["v"])}
     raise ValueError(t)
+
+
+def to_jv(v):
+    if v is None: return {"t": "z"}
+    if isinstance(v, bool): return {"t": "b", "v": v}
+    if isinstance(v, str): return {"t": "s", "b": list(v.encode("utf-8"))}
+    if isinstance(v, int): return {"t": "n", "int": True, "neg": v < 0, "hi": abs(v) >> 16, "lo": abs(v) & 0xffff}
+    if isinstance(v, float): return {"t": "n", "int": False, "neg": v < 0, "hi": 0, "lo": 0}
+    if isinstance(v, list): return {"t": "a", "v": [to_jv(x) for x in v]}
+    return {"t": "o", "k": list(v.keys()), "v": [to_jv(x) for x in v.values()]}
+
+def schema_to_jv(v, in_enum=False):
+    """schema form of specs/JsonSchema.tla: strings stay strings (ASCII-sanitised) except under `enum`"""
+    if isinstance(v, str) and not in_enum:
+        return {"t": "s", "v": "".join(c if (ord(c) < 128 and c not in '"\\' and c.isprintable()) else "?" for c in v)}
+    if isinstance(v, list): return {"t": "a", "v": [schema_to_jv(x, in_enum) for x in v]}
+    if isinstance(v, dict): return {"t": "o", "k": list(v.keys()), "v": [schema_to_jv(x, in_enum or k == "enum") for k, x in v.items()]}
+    return to_jv(v)
